@@ -748,3 +748,11 @@ func sccs(adj map[string][]string) [][]string {
 	}
 	return out
 }
+
+// fieldOfAddr names the struct field an address value points to ("pkg.Type.field"), or "".
+func fieldOfAddr(v ssa.Value) string {
+	if fa, ok := v.(*ssa.FieldAddr); ok {
+		return fieldOf(fa)
+	}
+	return ""
+}
